@@ -107,15 +107,15 @@ Proof.
   destruct (IH H2) as [bs ->]. eexists; reflexivity.
 Qed.
 
-(* Dynamic.decode's class table: every class (JIS-8 excepted) is found by its own format code *)
+(* Dynamic.decode's class table: every class is found by its own format code *)
 Definition fc_of (d : dkind) : N :=
   match d with
   | DArr => fc_Array
   | DScal KBin => fc_Binary | DScal KBool => fc_Boolean | DScal KStr => fc_String | DScal KJis => fc_JIS8
   | DScal (KNum k) => num_fc k
   end.
-Lemma gen_dyn_table d : d <> DScal KJis -> dkind_of_code (fc_of d) = Some d.
-Proof. destruct d as [|[| | | |k]]; try (intros _; reflexivity); [intro H; congruence|destruct k; intros _; reflexivity]. Qed.
+Lemma gen_dyn_table d : dkind_of_code (fc_of d) = Some d.
+Proof. destruct d as [|[| | | |k]]; try reflexivity. destruct k; reflexivity. Qed.
 
 (* ---------- scalars ---------- *)
 Lemma cnt_false_Z (c : bool) : negb c = true -> c = false. Proof. destruct c; [discriminate|reflexivity]. Qed.
@@ -468,12 +468,11 @@ Proof.
 Qed.
 
 Lemma canon_scalar v k : kind_of v = Some (DScal k) -> forall t, wf v t = true ->
-  match t with TScal k' c => wf_scal k' c v = true | TDyn a c => allowed_has a (DScal k) = true /\ k <> KJis /\ wf_scal k c v = true | _ => False end.
+  match t with TScal k' c => wf_scal k' c v = true | TDyn a c => allowed_has a (DScal k) = true /\ wf_scal k c v = true | _ => False end.
 Proof.
   intros Hk t Hwf. destruct v as [l|l|l|l|j l|n l|n l|]; try discriminate Hk; destruct t as [fs|e c|k' c|a c];
     try discriminate Hwf; try exact Hwf; cbn [wf] in Hwf; rewrite Hk in Hwf;
-    apply andb_prop in Hwf as [Hwf H3]; apply andb_prop in Hwf as [H1 H2];
-    (split; [exact H1|]); (split; [|exact H3]); intros ->; discriminate H2.
+    apply andb_prop in Hwf as [H1 H3]; (split; [exact H1|exact H3]).
 Qed.
 
 (* fuel needed: two levels per nesting depth under a Dynamic (Dynamic -> Array(ANYVALUE) -> element), one less elsewhere *)
@@ -574,7 +573,7 @@ Proof.
     + (* Dynamic holding a list: decoded as Array(ANYVALUE) one level down *)
       cbn [wf] in Hwf. apply andb_prop in Hwf as [Ha Hwl].
       cbn [py_decode]. cbn [e5_encode]. rewrite <- app_assoc, header_decode by assumption. cbn [bind].
-      change code_L with (fc_of DArr) at 1. rewrite gen_dyn_table by discriminate. rewrite Ha. cbn [negb].
+      change code_L with (fc_of DArr) at 1. rewrite gen_dyn_table. rewrite Ha. cbn [negb].
       rewrite app_assoc. change (e5_header code_L (len r) ++ List.concat (map e5_encode r)) with (e5_encode (EL r)).
       apply (IHf (VArr l) (TArr TAny (-1))).
       * unfold need in *. lia.
@@ -585,10 +584,10 @@ Proof.
     pose proof (canon_scalar v k Hk t Hwf) as Ht.
     destruct t as [fs|e c|k' c|a c]; try contradiction.
     + cbn [py_decode]. apply decode_scal_ok; assumption.
-    + destruct Ht as (Ha & Hj & Hws).
+    + destruct Ht as (Ha & Hws).
       destruct (scalar_encoding_shape v i k Hk Hd He) as (n & p & Henc & Hn & Hc).
       cbn [py_decode]. rewrite Henc at 1. rewrite <- app_assoc, header_decode by assumption. cbn [bind].
-      rewrite gen_dyn_table by (intro E; injection E as ->; contradiction).
+      rewrite gen_dyn_table.
       rewrite Ha. cbn [negb]. apply decode_scal_ok; assumption.
   - (* record / none *)
     destruct v as [l|l|l|l|j l|n l|n l|]; try discriminate Hk; [|destruct j; discriminate Hk|].
